@@ -183,17 +183,12 @@ func (d *Decoder) readTypedMap() (interface{}, error) {
 			return nil, err
 		}
 
-		//nil map
-		if key == nil {
-			break
-		}
-
 		value, err := d.ReadData()
 		if err != nil {
 			return nil, err
 		}
 		if mType.Kind() == reflect.Map {
-			mValue.SetMapIndex(EnsureRawValue(key), EnsureRawValue(value))
+			mValue.SetMapIndex(valueOrZero(EnsureRawValue(key), mType.Key()), valueOrZero(EnsureRawValue(value), mType.Elem()))
 		} else {
 			fieldName, ok := key.(string)
 			if !ok {
@@ -224,11 +219,6 @@ func (d *Decoder) readUntypedMap() (interface{}, error) {
 				break
 			}
 			return nil, err
-		}
-
-		// nil map
-		if key == nil {
-			break
 		}
 
 		value, err := EnsureInterface(d.ReadData())
@@ -279,15 +269,11 @@ func (d *Decoder) readMap(dest reflect.Value) error {
 			}
 		}
 
-		if key == nil {
-			break
-		}
-
 		vl, err := d.ReadData()
 		if err != nil {
 			return err
 		}
-		mPtrValue.Elem().SetMapIndex(EnsureRawValue(key), EnsureRawValue(vl))
+		mPtrValue.Elem().SetMapIndex(valueOrZero(EnsureRawValue(key), mapTyp.Key()), valueOrZero(EnsureRawValue(vl), mapTyp.Elem()))
 	}
 	SetValue(dest, mPtrValue)
 	return nil
